@@ -70,7 +70,7 @@ class Fixture:
         sch = L.SSEScheme(base)
         self.key = sch.KeyGen()
         self.kw = b"keyword"
-        self.ids = [[bytes([j + 1, i + 1]) * 4 for i in range(2 + j)] for j in range(3)]
+        self.ids = [[bytes([j + 1, i + 1]) * 4 for i in range(2 + j)] for j in range(5)]
         self.edb = [sch.EDBSetup(self.key, {self.kw: list(v)}).serialize() for v in self.ids]
         self.token = sch.TokenGen(self.key, self.kw).serialize()
 
@@ -470,8 +470,10 @@ async def amain(spec, acc, ctx):
         for w in range(spec["walks"]):
             if stop():
                 break
-            k = 3
-            scripts = [rng.choice(SCRIPTS) for _ in range(k)]
+            k = 3 if w % 4 else 4      # every fourth walk: four connections (a queue of three waiters)
+            scripts = [rng.choice(SCRIPTS if k == 3 else SCRIPTS[:4]) for _ in range(k)]
+            if k == 4:
+                acc.count("four_conn_walks")
             if w % 3 == 0:
                 scripts[0] = ["config", "upload"]
             counts = [len(s) + 2 for s in scripts]
